@@ -78,8 +78,26 @@ def _call(e, spec, X, metric, local=False, lengths=None):
     raise ValueError(algo)
 
 
+def strided_view(X, mode):
+    """the same values in a non-contiguous layout (a view into a larger buffer)"""
+    n, d = X.shape
+    if mode == 1:
+        big = np.zeros((2 * n + 1, d), dtype=X.dtype)
+        v = big[1::2][:n]
+    elif mode == 2:
+        big = np.zeros((n, 2 * d + 1), dtype=X.dtype)
+        v = big[:, 1::2][:, :d]
+    else:
+        return np.asfortranarray(X)
+    v[...] = X
+    return v
+
+
 def run_serial(ctx, e, P, spec, X=None, poison=0, seed=1):
     X = P.X.copy() if X is None else X
+    layout = spec.get('layout', 0)
+    if layout:
+        X = strided_view(X, layout)          # callers hand in slices of larger arrays (every other frame, selected features)
     snap = X.copy()
     with C.Poison(ctx, poison, seed=seed):
         res, est = ctx.sut(_call, e, spec, X, P.sut_metric())
